@@ -321,6 +321,7 @@ func (srv *Server) ListenAndServe() error {
 	}
 
 	srv.init()
+	shutdown := srv.shutdown
 
 	switch srv.Net {
 	case "tcp", "tcp4", "tcp6":
@@ -331,7 +332,7 @@ func (srv *Server) ListenAndServe() error {
 		srv.Listener = l
 		srv.started = true
 		unlock()
-		return srv.serveTCP(l)
+		return srv.serveTCP(l, shutdown)
 	case "tcp-tls", "tcp4-tls", "tcp6-tls":
 		if srv.TLSConfig == nil || (len(srv.TLSConfig.Certificates) == 0 && srv.TLSConfig.GetCertificate == nil) {
 			return errors.New("neither Certificates nor GetCertificate set in config")
@@ -345,7 +346,7 @@ func (srv *Server) ListenAndServe() error {
 		srv.Listener = l
 		srv.started = true
 		unlock()
-		return srv.serveTCP(l)
+		return srv.serveTCP(l, shutdown)
 	case "udp", "udp4", "udp6":
 		l, err := listenUDP(srv.Net, addr, srv.ReusePort, srv.ReuseAddr)
 		if err != nil {
@@ -359,7 +360,7 @@ func (srv *Server) ListenAndServe() error {
 		srv.PacketConn = l
 		srv.started = true
 		unlock()
-		return srv.serveUDP(u)
+		return srv.serveUDP(u, shutdown)
 	}
 	return &Error{err: "bad network"}
 }
@@ -376,6 +377,7 @@ func (srv *Server) ActivateAndServe() error {
 	}
 
 	srv.init()
+	shutdown := srv.shutdown
 
 	if srv.PacketConn != nil {
 		// Check PacketConn interface's type is valid and value
@@ -387,12 +389,12 @@ func (srv *Server) ActivateAndServe() error {
 		}
 		srv.started = true
 		unlock()
-		return srv.serveUDP(srv.PacketConn)
+		return srv.serveUDP(srv.PacketConn, shutdown)
 	}
 	if srv.Listener != nil {
 		srv.started = true
 		unlock()
-		return srv.serveTCP(srv.Listener)
+		return srv.serveTCP(srv.Listener, shutdown)
 	}
 	return &Error{err: "bad listeners"}
 }
@@ -429,6 +431,10 @@ func (srv *Server) ShutdownContext(ctx context.Context) error {
 		rw.SetReadDeadline(aLongTimeAgo) // Unblock reads
 	}
 
+	// The channel of the serve call being shut down: starting the server
+	// again replaces srv.shutdown.
+	shutdown := srv.shutdown
+
 	srv.lock.Unlock()
 
 	if testShutdownNotify != nil {
@@ -437,7 +443,7 @@ func (srv *Server) ShutdownContext(ctx context.Context) error {
 
 	var ctxErr error
 	select {
-	case <-srv.shutdown:
+	case <-shutdown:
 	case <-ctx.Done():
 		ctxErr = ctx.Err()
 	}
@@ -459,8 +465,10 @@ func (srv *Server) getReadTimeout() time.Duration {
 	return dnsTimeout
 }
 
-// serveTCP starts a TCP listener for the server.
-func (srv *Server) serveTCP(l net.Listener) error {
+// serveTCP starts a TCP listener for the server. shutdown is the channel of
+// this serve call: srv.shutdown is replaced when the server is started again,
+// which may happen while this call is still waiting for its handlers.
+func (srv *Server) serveTCP(l net.Listener, shutdown chan struct{}) error {
 	defer l.Close()
 
 	if srv.NotifyStartedFunc != nil {
@@ -470,7 +478,7 @@ func (srv *Server) serveTCP(l net.Listener) error {
 	var wg sync.WaitGroup
 	defer func() {
 		wg.Wait()
-		close(srv.shutdown)
+		close(shutdown)
 	}()
 
 	for srv.isStarted() {
@@ -496,7 +504,7 @@ func (srv *Server) serveTCP(l net.Listener) error {
 }
 
 // serveUDP starts a UDP listener for the server.
-func (srv *Server) serveUDP(l net.PacketConn) error {
+func (srv *Server) serveUDP(l net.PacketConn, shutdown chan struct{}) error {
 	defer l.Close()
 
 	reader := Reader(defaultReader{srv})
@@ -523,7 +531,7 @@ func (srv *Server) serveUDP(l net.PacketConn) error {
 	var wg sync.WaitGroup
 	defer func() {
 		wg.Wait()
-		close(srv.shutdown)
+		close(shutdown)
 	}()
 
 	rtimeout := srv.getReadTimeout()
